@@ -7,9 +7,9 @@ Import ListNotations.
 Local Open Scope N_scope.
 
 (* ---------- hypotheses on a statement, evaluated in the store it runs on ---------- *)
-(* a failing statement changes no page (it may consume row ids and LSNs). This EXCLUDES the
-   recorded findings F11a-c (C14): a multi-row INSERT / UPDATE or a CREATE TABLE that fails after
-   its first row keeps the earlier rows. *)
+(* a failing statement changes no page. (Before the repair of the recorded findings F11a-c (C14)
+   this excluded a multi-row INSERT / UPDATE or a CREATE TABLE failing after its first row; it is
+   now derived from the refinement invariant: Proofs/HistNoH1.v rep_stmt_atomic.) *)
 Definition stmt_atomic (s : store) (st : stmt) : Prop :=
   is_ok (e_out (run_stmt s st)) = false -> seq (e_store (run_stmt s st)) s.
 
